@@ -105,7 +105,7 @@ pub fn good_reconnect(h: &mut H, s: &mut Session) -> Option<bool> {
 /// C01: honest logins over credential classes x case variants x storage round trip x
 /// key classes (random, corpus of rare classes) x reconnect counts.
 pub fn run_auth(args: &Args) -> (u64, u64) {
-    let mut h = H::new(Tr::create(&args.out));
+    let mut h = H::new(Tr::create(&args.out)).with_det(args);
     let mut rng = StdRng::seed_from_u64(args.seed);
     let thorough = args.tier == "thorough";
     let mut k = 0usize;
@@ -194,7 +194,7 @@ fn clone_proof(h: &mut H, po: u64, p: &SrpProof) -> (u64, SrpProof) {
 
 /// C02: every perturbation of a baseline session starts from a clone of the same typestate.
 pub fn run_tamper(args: &Args) -> (u64, u64) {
-    let mut h = H::new(Tr::create(&args.out));
+    let mut h = H::new(Tr::create(&args.out)).with_det(args);
     let mut rng = StdRng::seed_from_u64(args.seed);
     let thorough = args.tier == "thorough";
     let baselines = args.n.unwrap_or(if thorough { 40 } else { 3 }) as usize;
@@ -314,7 +314,7 @@ fn sha1cat(parts: &[&[u8]]) -> [u8; 20] {
 /// C05: replay TLC-generated reconnect histories on a real server / client pair.
 /// A history is a sequence of attempt kinds; see spec/mc/MCReconnect.tla.
 pub fn run_reconnect(args: &Args) -> (u64, u64) {
-    let mut h = H::new(Tr::create(&args.out));
+    let mut h = H::new(Tr::create(&args.out)).with_det(args);
     let mut rng = StdRng::seed_from_u64(args.seed);
     let scen = read_ndjson(args.scen.as_ref().expect("--scen histories"));
     let mut bitctr = 0usize;
@@ -397,7 +397,7 @@ pub fn run_reconnect(args: &Args) -> (u64, u64) {
 
 /// C03 / C14: the interleave function on every leading-zero count (through hook H2).
 pub fn run_interleave(args: &Args) -> (u64, u64) {
-    let mut h = H::new(Tr::create(&args.out));
+    let mut h = H::new(Tr::create(&args.out)).with_det(args);
     let mut rng = StdRng::seed_from_u64(args.seed);
     let reps = if args.tier == "thorough" { 40 } else { 4 };
     h.reset("interleave");
@@ -436,7 +436,7 @@ pub fn run_interleave(args: &Args) -> (u64, u64) {
 
 /// C04: the public-key constructor on directed and random arrays.
 pub fn run_pubkey(args: &Args) -> (u64, u64) {
-    let mut h = H::new(Tr::create(&args.out));
+    let mut h = H::new(Tr::create(&args.out)).with_det(args);
     let mut rng = StdRng::seed_from_u64(args.seed);
     let thorough = args.tier == "thorough";
     h.reset("pubkey");
@@ -513,7 +513,7 @@ pub fn run_pubkey(args: &Args) -> (u64, u64) {
 /// C03: TLC-generated client cases for announced groups.
 /// Each scenario line: {g, N, a, B, salt, user, pass}.
 pub fn run_clientgroups(args: &Args) -> (u64, u64) {
-    let mut h = H::new(Tr::create(&args.out));
+    let mut h = H::new(Tr::create(&args.out)).with_det(args);
     let scen = read_ndjson(args.scen.as_ref().expect("--scen cases"));
     let mut cnt = 0u64;
     for c in scen.iter() {
@@ -542,7 +542,7 @@ pub fn run_clientgroups(args: &Args) -> (u64, u64) {
 /// C14: hostile peers. Server side: arbitrary A / M1 / reconnect data against accounts with
 /// ordinary and unusual verifiers; client side: arbitrary B / salt / M2 with the built-in group.
 pub fn run_adversary(args: &Args) -> (u64, u64) {
-    let mut h = H::new(Tr::create(&args.out));
+    let mut h = H::new(Tr::create(&args.out)).with_det(args);
     let mut rng = StdRng::seed_from_u64(args.seed);
     let thorough = args.tier == "thorough";
     let rounds = args.n.unwrap_or(if thorough { 60 } else { 4 });
@@ -634,5 +634,47 @@ pub fn run_adversary(args: &Args) -> (u64, u64) {
     }
     // the interleave on the all-zero secret
     h.interleave([0u8; 32]);
+    h.tr.finish()
+}
+
+/// C19: degenerate draws and announced groups, where the two integer back ends are most likely to differ
+pub fn run_degenerate(args: &Args) -> (u64, u64) {
+    let mut h = H::new(Tr::create(&args.out)).with_det(args);
+    h.reset("degenerate");
+    let zero = [0u8; 32];
+    let one = { let mut k = [0u8; 32]; k[0] = 1; k };
+    // all-zero private keys on both sides
+    if let Some((vo, v)) = h.register("ZERO", "KEY", None) {
+        if let Some((po, proof)) = h.into_proof(vo, v, Some(&zero)) {
+            if let Some(bpub) = h.pubkey(*proof.server_public_key()) {
+                if let Some((co, chal)) = h.client_new("ZERO", "KEY", 7, N_LE, bpub, *proof.salt(), Some(&zero)) {
+                    if let Some(apub) = h.pubkey(*chal.client_public_key()) {
+                        let m1 = *chal.client_proof();
+                        if let Some((_so, _s, m2)) = h.into_server(po, proof, apub, m1) {
+                            h.verify_server_proof(co, chal, m2);
+                        }
+                    }
+                }
+            }
+        }
+    }
+    // private key one, N - 1, all 0xFF
+    for k in [one, { let mut x = N_LE; x[0] -= 1; x }, [0xff; 32]] {
+        let prm = Params { user: "EDGE", pass: "KEYS", typed_user: "edge", typed_pass: "keys", salt: None, b: Some(k), a: Some(k), storage: false };
+        honest_login(&mut h, &prm);
+    }
+    // announced groups: even moduli (2 is prime), modulus 1, tiny and huge generators
+    let bpub = h.pubkey(one);
+    if let Some(bpub) = bpub {
+        for n in [2u8, 3, 4, 6, 255] {
+            for g in [2u8, 3, 7, 255] {
+                for a in [zero, one, [0xff; 32]] {
+                    let mut nn = [0u8; 32];
+                    nn[0] = n;
+                    h.client_new("EDGE", "KEYS", g, nn, bpub, [0u8; 32], Some(&a));
+                }
+            }
+        }
+    }
     h.tr.finish()
 }
